@@ -13,6 +13,16 @@ the named Python/NumPy primitives of `Model/AngularPy.lean`:
   `if size is not None: degree = None`, the call, the cache test and the loader call; result
   `(self._degree, size, cache dict, cache key, (package, file name))`.
 
+Round 3 (full text, generic in the number type `K`, primitives of `Model/AngularNp.lean`):
+
+* `loadPrecomputedAngularGrid_data` — the statements of the loader after `np.load` (broadcast of a
+  single weight), `loadPrecomputedAngularGridFull` — the loader against an abstract `np.load`;
+* `getDegreeAndSize_warnings` — the same body as `_get_degree_and_size` with the executed
+  `warnings.warn` calls (category, message, stacklevel) as the result;
+* `initFull` — every statement of `__init__`: cache lookup / fill (`cache=`), `self._degree`,
+  the `super().__init__` branches (`.copy()`, `weights * 4 * np.pi`), the negative-weights test,
+  `self._method`, and the warning log; `initCacheDefault` — the default of `cache=`.
+
 Accepted syntax is what these four bodies use today (see `Tr.expr` / `Tr.block`); anything else
 raises `Untranslatable`, which the check treats like a proof obligation that no longer holds.
 A change of an operator, a constant, an operand, the order of a returned pair, a branch
@@ -42,11 +52,17 @@ TABLES = {
     "AHRENS_BEYLKIN_DEGREES": "ahrensDegrees", "AHRENS_BEYLKIN_NPOINTS": "ahrensNPoints",
 }
 CACHES = ["LEBEDEV_CACHE", "SPHERICAL_CACHE", "MAX_DET_CACHE", "AHRENS_BEYLKIN_CACHE"]
-BUILTINS = ["bisect_left", "max", "list", "len", "isinstance", "int", "dict", "files", "np", "warnings"]
+BUILTINS = ["bisect_left", "max", "list", "len", "isinstance", "int", "dict", "files", "np", "warnings", "super"]
+WARN_CATEGORIES = ["Warning", "UserWarning", "RuntimeWarning", "DeprecationWarning", "FutureWarning", "SyntaxWarning"]
 ERRORS = {"ValueError": "valueError", "TypeError": "typeError", "IndexError": "indexError", "KeyError": "keyError"}
 LEAN_TYPE = {"val": "Val", "str": "String", "tbl": "Tbl", "keys": "List Nat", "ints": "List Int",
              "bool": "Bool", "cache": "String", "pair": "Val × Val", "vals": "List Val",
-             "bools": "List Bool", "nat": "Nat", "file": "String × String"}
+             "bools": "List Bool", "nat": "Nat", "file": "String × String",
+             "num": "K", "arr1": "List K", "arr2": "List (List K)", "npz": "Npz K",
+             "arrs": "List (List K) × List K", "caches": "Caches K", "log": "List Warning"}
+NPCMP = {ast.Lt: "npLtS", ast.LtE: "npLeS", ast.Gt: "npGtS", ast.GtE: "npGeS"}
+NATCMP = {ast.Eq: "{a} == {b}", ast.NotEq: "{a} != {b}", ast.Lt: "decide ({a} < {b})", ast.LtE: "decide ({a} ≤ {b})",
+          ast.Gt: "decide ({a} > {b})", ast.GtE: "decide ({a} ≥ {b})"}
 CMP = {ast.Lt: "pyLt", ast.Gt: "pyGt", ast.LtE: "pyLe", ast.GtE: "pyGe", ast.NotEq: "pyNe", ast.Eq: "pyEq"}
 # Lean name, parameter types, result type of the translated callables
 SIGS = {
@@ -73,9 +89,29 @@ class E:
 
 
 class Tr:
-    def __init__(self, params):
+    def __init__(self, params, log=False, full=False):
         self.n = 0
         self.params = params  # callee name -> ordered parameter names
+        self.log = log        # warnings.warn calls are carried (variable `log`) instead of skipped
+        self.full = full      # the loader call means the loader against `npLoad` (arrays), not the file name
+        self.silent = set()   # translated callables whose text contains no warnings.warn call
+
+    # -- numbers (generic carrier K) ----------------------------------------------------
+    def num(self, e, env) -> E:
+        if isinstance(e, ast.Constant) and not isinstance(e.value, bool) and isinstance(e.value, (int, float)):
+            from fractions import Fraction
+            q = Fraction(e.value)
+            if q < 0:
+                _fail(e, "negative numeric constant")
+            if q.denominator == 1:
+                return E(f"(({q.numerator} : Nat) : K)", "num")
+            return E(f"((({q.numerator} : Nat) : K) / (({q.denominator} : Nat) : K))", "num")
+        if isinstance(e, ast.Attribute) and ast.unparse(e) == "np.pi":
+            return E("(Elem.pi : K)", "num")
+        a = self.expr(e, env)
+        if a.typ != "num":
+            _fail(e, "not a number")
+        return a
 
     def fresh(self):
         self.n += 1
@@ -110,6 +146,8 @@ class Tr:
                 return E(f"Val.int {e.value}" if e.value >= 0 else f"Val.int ({e.value})", "val")
             if isinstance(e.value, str):
                 return E(_lean_str(e.value), "str")
+            if isinstance(e.value, float):
+                return self.num(e, env)
             _fail(e, "unsupported constant")
         if isinstance(e, ast.Name):
             if e.id in env:
@@ -119,8 +157,27 @@ class Tr:
             if e.id in CACHES:
                 return E(_lean_str(e.id), "cache")
             _fail(e, "unknown name")
+        if isinstance(e, ast.Attribute) and ast.unparse(e) == "np.pi":
+            return self.num(e, env)
+        if isinstance(e, ast.BinOp):
+            if not isinstance(e.op, (ast.Mult, ast.Div)):
+                _fail(e, "arithmetic other than * and /")
+            mul = isinstance(e.op, ast.Mult)
+            a = self.expr(e.left, env) if not isinstance(e.left, ast.Constant) else self.num(e.left, env)
+            if a.typ == "arr1":
+                b = self.num(e.right, env) if isinstance(e.right, (ast.Constant, ast.Attribute)) else self.expr(e.right, env)
+                if b.typ == "num":
+                    return self.seq([a, b], lambda x, y: E(f"{'npMulS' if mul else 'npDivS'} {x} {y}", "arr1"))
+                if b.typ == "arr1":
+                    return self.seq([a, b], lambda x, y: E(f"{'npMul' if mul else 'npDiv'} {x} {y}", "arr1", True))
+            if a.typ == "num":
+                b = self.num(e.right, env)
+                return self.seq([a, b], lambda x, y: E(f"({x} {'*' if mul else '/'} {y})", "num"))
+            _fail(e, "unsupported arithmetic")
         if isinstance(e, ast.Tuple) and len(e.elts) == 2:
             a, b = (self.expr(x, env) for x in e.elts)
+            if (a.typ, b.typ) == ("arr2", "arr1"):
+                return self.seq([a, b], lambda x, y: E(f"({x}, {y})", "arrs"))
             if (a.typ, b.typ) == ("val", "val"):
                 return self.seq([a, b], lambda x, y: E(f"({x}, {y})", "pair"))
             if (a.typ, b.typ) == ("tbl", "tbl"):
@@ -149,7 +206,25 @@ class Tr:
                 if a.typ != "val" or a.monadic:
                     _fail(e, "`is None` of a non-scalar")
                 return E(f"pyIsNone {a.code}" if isinstance(op, ast.Is) else f"!(pyIsNone {a.code})", "bool")
-            a, b = self.expr(l, env), self.expr(r, env)
+            a = self.expr(l, env)
+            if a.typ == "arr1" and type(op) in NPCMP:
+                b = self.num(r, env)
+                return self.seq([a, b], lambda x, y: E(f"{NPCMP[type(op)]} {x} {y}", "bools"))
+            if a.typ == "nat" and type(op) in NATCMP:
+                if not (isinstance(r, ast.Constant) and isinstance(r.value, int) and not isinstance(r.value, bool) and r.value >= 0):
+                    _fail(e, "a length is only compared with a natural constant")
+                return self.seq([a], lambda x: E("(" + NATCMP[type(op)].format(a=x, b=r.value) + ")", "bool"))
+            if a.typ == "str" and isinstance(op, (ast.In, ast.NotIn)) and isinstance(r, (ast.List, ast.Tuple)):
+                if not all(isinstance(x, ast.Constant) and isinstance(x.value, str) for x in r.elts):
+                    _fail(e, "`in` a list of something other than string literals")
+                lst = "[" + ", ".join(_lean_str(x.value) for x in r.elts) + "]"
+                return self.seq([a], lambda x: E(f"{'' if isinstance(op, ast.In) else '!'}({lst}.contains {x})", "bool"))
+            b = self.expr(r, env)
+            if isinstance(op, (ast.In, ast.NotIn)) and (a.typ, b.typ) == ("val", "cache"):
+                if env.get("caches") != "caches":
+                    _fail(e, "cache dictionary consulted outside the full text of __init__")
+                res = self.seq([a, b], lambda x, y: E(f"cacheIn caches {y} {x}", "bool", True))
+                return res if isinstance(op, ast.In) else E(f"pyNot ({res.code})", "bool", True)
             if isinstance(op, (ast.In, ast.NotIn)):
                 if (a.typ, b.typ) != ("val", "tbl"):
                     _fail(e, "`in` is only carried for scalar in table")
@@ -176,9 +251,17 @@ class Tr:
                 if not (isinstance(e.slice, ast.Constant) and e.slice.value in (0, 1) and not isinstance(e.slice.value, bool)):
                     _fail(e, "pair index must be the constant 0 or 1")
                 return self.seq([v], lambda x: E(f"{x}.{e.slice.value + 1}", "val"))
+            if v.typ == "npz":
+                if not (isinstance(e.slice, ast.Constant) and e.slice.value in ("points", "weights")):
+                    _fail(e, "a loaded data file is only read at 'points' and 'weights'")
+                return self.seq([v], lambda x: E(f"{x}.{e.slice.value}", "arr2" if e.slice.value == "points" else "arr1"))
             i = self.expr(e.slice, env)
             if i.typ != "val":
                 _fail(e, "unsupported subscript")
+            if v.typ == "cache":
+                if env.get("caches") != "caches":
+                    _fail(e, "cache dictionary consulted outside the full text of __init__")
+                return self.seq([v, i], lambda x, y: E(f"cacheGet caches {x} {y}", "arrs", True))
             if v.typ == "keys":
                 return self.seq([v, i], lambda x, y: E(f"pyListGet {x} {y}", "val", True))
             if v.typ == "tbl":
@@ -211,11 +294,13 @@ class Tr:
 
     def cond(self, e, env) -> E:
         c = self.expr(e, env)
+        if c.typ == "val" and self.log and not c.monadic:
+            return E(f"pyTruthy {c.code}", "bool", True)
         if c.typ != "bool":
             _fail(e, "truth value of a non-boolean expression is not carried")
         return c
 
-    def call(self, e, env) -> E:
+    def call(self, e, env, warnings_of=False) -> E:
         f = ast.unparse(e.func)
         if f == "isinstance":
             if len(e.args) != 2 or e.keywords or ast.unparse(e.args[1]) != "int | np.integer":
@@ -236,7 +321,7 @@ class Tr:
             a = self.expr(e.args[0], env)
             if f == "max" and a.typ == "keys":
                 return self.seq([a], lambda x: E(f"pyMax {x}", "val", True))
-            if f == "len" and a.typ == "ints":
+            if f == "len" and a.typ in ("ints", "arr1", "arr2"):
                 return self.seq([a], lambda x: E(f"{x}.length", "nat"))
             _fail(e, f"{f} of an unsupported argument")
         if f == "bisect_left" and len(e.args) == 2 and not e.keywords:
@@ -251,6 +336,21 @@ class Tr:
             if a.typ != "nat":
                 _fail(e, "np.zeros length")
             return self.seq([a], lambda x: E(f"npZerosInt {x}", "ints"))
+        if f == "np.ones" and len(e.args) == 1 and not e.keywords:
+            a = self.expr(e.args[0], env)
+            if a.typ != "nat":
+                _fail(e, "np.ones length")
+            return self.seq([a], lambda x: E(f"npOnes (K := K) {x}", "arr1"))
+        if f == "np.any" and len(e.args) == 1 and not e.keywords:
+            a = self.expr(e.args[0], env)
+            if a.typ != "bools":
+                _fail(e, "np.any of something other than a mask")
+            return self.seq([a], lambda x: E(f"npAny {x}", "bool"))
+        if isinstance(e.func, ast.Attribute) and e.func.attr == "copy" and not e.args and not e.keywords:
+            a = self.expr(e.func.value, env)
+            if a.typ not in ("arr1", "arr2"):
+                _fail(e, "copy() of a non-array")
+            return self.seq([a], lambda x: E(f"npCopy {x}", a.typ))
         if f == "np.unique" and len(e.args) == 1 and not e.keywords:
             a = self.expr(e.args[0], env)
             if a.typ != "ints":
@@ -263,6 +363,10 @@ class Tr:
             return self.seq([a], lambda x: E(f"pyLower {x}", "str"))
         if isinstance(e.func, ast.Attribute) and e.func.attr in SIGS and ast.unparse(e.func.value) in ("self", "AngularGrid"):
             lname, ptypes, rtyp = SIGS[e.func.attr]
+            if self.full and e.func.attr == "_load_precomputed_angular_grid":
+                lname, rtyp = "loadPrecomputedAngularGridFull npLoad", "arrs"
+            if warnings_of:
+                lname, rtyp = lname + "_warnings", "log"
             order = self.params[e.func.attr]
             given = dict(zip(order, e.args))
             for k in e.keywords:
@@ -288,22 +392,69 @@ class Tr:
         return isinstance(s, ast.Expr) and isinstance(s.value, ast.Call) and ast.unparse(s.value.func) == "warnings.warn"
 
     @staticmethod
+    def is_super_init(s):
+        return (isinstance(s, ast.Expr) and isinstance(s.value, ast.Call) and ast.unparse(s.value.func) == "super().__init__")
+
+    @staticmethod
+    def self_attr(t):
+        """`self.x` as an assignment target -> the local name `self_x` it is carried as."""
+        if isinstance(t, ast.Attribute) and isinstance(t.value, ast.Name) and t.value.id == "self" and t.attr.isidentifier():
+            return "self_" + t.attr
+        return None
+
+    @staticmethod
+    def warn_record(s):
+        """`warnings.warn(<string literal>[, <category>][, stacklevel=<n>])` -> Lean `Warning` literal."""
+        c = s.value
+        kw = {k.arg: k.value for k in c.keywords}
+        if None in kw or set(kw) - {"category", "stacklevel"} or not 1 <= len(c.args) <= 2 or (len(c.args) == 2 and "category" in kw):
+            _fail(s, "warnings.warn call of an unexpected shape")
+        msg = c.args[0]
+        if not (isinstance(msg, ast.Constant) and isinstance(msg.value, str)):
+            _fail(s, "warning message is not a string literal")
+        cat = c.args[1] if len(c.args) == 2 else kw.get("category")
+        if cat is None:
+            cat = "UserWarning"
+        elif isinstance(cat, ast.Name) and cat.id in WARN_CATEGORIES:
+            cat = cat.id
+        else:
+            _fail(s, "warning category")
+        lvl = kw.get("stacklevel", ast.Constant(value=1))
+        if not (isinstance(lvl, ast.Constant) and isinstance(lvl.value, int) and not isinstance(lvl.value, bool) and lvl.value >= 0):
+            _fail(s, "stacklevel is not a natural constant")
+        return f"⟨{_lean_str(cat)}, {_lean_str(msg.value)}, {lvl.value}, 0⟩"
+
+    @staticmethod
     def is_doc(s):
         return isinstance(s, ast.Expr) and isinstance(s.value, ast.Constant) and isinstance(s.value.value, str)
 
-    def assigned(self, stmts):
+    def assigned(self, stmts, env=None):
+        env = env or {}
         out = []
         for s in stmts:
             if isinstance(s, ast.Assign):
                 for t in s.targets:
                     for n in (t.elts if isinstance(t, ast.Tuple) else [t]):
                         n = n.value if isinstance(n, ast.Subscript) else n
-                        if not isinstance(n, ast.Name):
+                        name = self.self_attr(n) or (n.id if isinstance(n, ast.Name) else None)
+                        if name is None:
                             _fail(s, "assignment target")
-                        if n.id not in out:
-                            out.append(n.id)
+                        if isinstance(t, ast.Subscript) and isinstance(n, ast.Name) and env.get(n.id) == "cache":
+                            name = "caches"
+                        if name not in out:
+                            out.append(name)
+                if self.log and isinstance(s.value, ast.Call) and isinstance(s.value.func, ast.Attribute) \
+                        and s.value.func.attr == "_get_degree_and_size" and "log" not in out:
+                    out.append("log")
+            elif self.log and self.is_warn(s):
+                if "log" not in out:
+                    out.append("log")
+            elif self.is_super_init(s):
+                for name in ("self_points", "self_weights"):
+                    if name not in out:
+                        out.append(name)
             elif isinstance(s, ast.If):
-                for n in self.assigned(s.body) + self.assigned(s.orelse):
+                for n in self.assigned(s.body, env) + self.assigned(s.orelse, env):
                     if n not in out:
                         out.append(n)
             elif isinstance(s, ast.For):
@@ -328,13 +479,29 @@ class Tr:
         if not stmts:
             return pad + final(env)
         s, rest = stmts[0], stmts[1:]
-        if self.is_doc(s) or self.is_warn(s):
+        if self.is_doc(s) or (self.is_warn(s) and not self.log):
             return self.block(rest, env, final, ind)
+        if self.is_warn(s):
+            if env.get("log") != "log":
+                _fail(s, "no warning log in scope")
+            return f"{pad}let log := log ++ [{self.warn_record(s)}]\n" + self.block(rest, env, final, ind)
+        if self.is_super_init(s):
+            c = s.value
+            if len(c.args) != 2 or c.keywords:
+                _fail(s, "super().__init__ is not called with (points, weights)")
+            a, b = self.expr(c.args[0], env), self.expr(c.args[1], env)
+            if (a.typ, b.typ) != ("arr2", "arr1"):
+                _fail(s, "super().__init__ arguments")
+            r = self.seq([a, b], lambda x, y: E(f"gridInit {x} {y}", "arrs", True))
+            return (f"{pad}{r.code} >>= fun (self_points, self_weights) =>\n"
+                    + self.block(rest, {**env, "self_points": "arr2", "self_weights": "arr1"}, final, ind))
         if isinstance(s, ast.Return):
             if rest:
                 _fail(rest[0], "statement after return")
             if s.value is None:
                 _fail(s, "bare return")
+            if self.log:     # the value is still computed (it may raise); the result is the log
+                return pad + f"{self.expr(s.value, env).m()} >>= fun _ =>\n{pad}pure log"
             return pad + self.expr(s.value, env).m()
         if isinstance(s, ast.Raise):
             if rest:
@@ -347,6 +514,25 @@ class Tr:
             if len(s.targets) != 1:
                 _fail(s, "multiple targets")
             t = s.targets[0]
+            if isinstance(t, ast.Subscript) and isinstance(t.value, ast.Name) and env.get(t.value.id) == "cache":
+                # cache_dict[key] = points, weights
+                if env.get("caches") != "caches":
+                    _fail(s, "cache dictionary written outside the full text of __init__")
+                c, k, v = self.expr(t.value, env), self.expr(t.slice, env), self.expr(s.value, env)
+                if (k.typ, v.typ) != ("val", "arrs"):
+                    _fail(s, "cache entry of unexpected kinds")
+                r = self.seq([v, c, k], lambda x, y, z: E(f"cacheSet caches {y} {z} {x}", "caches", True))
+                return f"{pad}{r.code} >>= fun caches =>\n" + self.block(rest, env, final, ind)
+            pre = ""
+            if self.log and isinstance(s.value, ast.Call) and isinstance(s.value.func, ast.Attribute) and s.value.func.attr in SIGS:
+                # warnings raised inside the callee: the same call text against the callee's warning log
+                if s.value.func.attr == "_get_degree_and_size":
+                    if env.get("log") != "log":
+                        _fail(s, "no warning log in scope")
+                    w = self.call(s.value, env, warnings_of=True)
+                    pre = f"{pad}{w.code} >>= fun l_ =>\n{pad}let log := log ++ warnInner l_\n"
+                elif s.value.func.attr not in self.silent:
+                    _fail(s, "callee may warn and its warnings are not carried")
             if isinstance(t, ast.Subscript):
                 # A[np.where(M)] = V   (A an integer array)
                 ok = (isinstance(t.value, ast.Name) and env.get(t.value.id) == "ints" and isinstance(t.slice, ast.Call)
@@ -361,22 +547,23 @@ class Tr:
             v = self.expr(s.value, env)
             if isinstance(t, ast.Tuple):
                 names = [n.id if isinstance(n, ast.Name) else _fail(s, "target") for n in t.elts]
-                if len(names) != 2 or v.typ not in ("pair", "tblpair"):
+                subs = {"pair": ("val", "val"), "tblpair": ("tbl", "tbl"), "arrs": ("arr2", "arr1")}.get(v.typ)
+                if len(names) != 2 or subs is None:
                     _fail(s, "tuple assignment of a non-pair")
-                sub = "val" if v.typ == "pair" else "tbl"
-                env2 = {**env, names[0]: sub, names[1]: sub}
+                env2 = {**env, names[0]: subs[0], names[1]: subs[1]}
                 if v.monadic:
-                    return f"{pad}{v.code} >>= fun ({names[0]}, {names[1]}) =>\n" + self.block(rest, env2, final, ind)
-                return f"{pad}let ({names[0]}, {names[1]}) := {v.code}\n" + self.block(rest, env2, final, ind)
-            if not isinstance(t, ast.Name):
+                    return pre + f"{pad}{v.code} >>= fun ({names[0]}, {names[1]}) =>\n" + self.block(rest, env2, final, ind)
+                return pre + f"{pad}let ({names[0]}, {names[1]}) := {v.code}\n" + self.block(rest, env2, final, ind)
+            name = self.self_attr(t) or (t.id if isinstance(t, ast.Name) else None)
+            if name is None:
                 _fail(s, "assignment target")
-            env2 = {**env, t.id: v.typ}
+            env2 = {**env, name: v.typ}
             if v.monadic:
-                return f"{pad}{v.code} >>= fun {t.id} =>\n" + self.block(rest, env2, final, ind)
-            return f"{pad}let {t.id} := {v.code}\n" + self.block(rest, env2, final, ind)
+                return pre + f"{pad}{v.code} >>= fun {name} =>\n" + self.block(rest, env2, final, ind)
+            return pre + f"{pad}let {name} := {v.code}\n" + self.block(rest, env2, final, ind)
         if isinstance(s, ast.If):
             body = [x for x in s.body if not self.is_warn(x)]
-            if not body and not s.orelse:
+            if not self.log and not body and not s.orelse:
                 # warnings only: no effect on the result; the test must not be able to raise
                 for n in ast.walk(s.test):
                     if not isinstance(n, (ast.BoolOp, ast.And, ast.Or, ast.Name, ast.Load)):
@@ -400,10 +587,10 @@ class Tr:
                 head = f"{pad}if {c.code} then\n" if not c.monadic else f"{pad}{c.code} >>= fun c_ => if c_ then\n"
                 return head + a + f"\n{pad}else\n" + b
             # both branches fall through: they yield the variables they assign
-            vs = self.assigned([s])
+            vs = self.assigned([s], env)
             typs = self.yield_types(s, env)
             tup = vs[0] if len(vs) == 1 else "(" + ", ".join(vs) + ")"
-            fin = lambda env_: f"pure {tup}" if all(v in env_ for v in vs) else _fail(s, "a branch leaves a variable unassigned")  # noqa: E731
+            fin = lambda env_: f"pure {tup}" if all(env_.get(v) == typs.get(v) for v in vs) else _fail(s, "a branch leaves a variable unassigned")  # noqa: E731
             a = self.block(s.body, env, fin, ind + 1)
             b = self.block(s.orelse, env, fin, ind + 1)
             head = f"{pad}(if {c.code} then\n" if not c.monadic else f"{pad}({c.code} >>= fun c_ => if c_ then\n"
@@ -415,7 +602,7 @@ class Tr:
             it = self.expr(s.iter, env)
             if it.typ != "vals" or it.monadic:
                 _fail(s, "loop over something other than np.unique(integer array)")
-            vs = self.assigned(s.body)
+            vs = self.assigned(s.body, env)
             state = [v for v in vs if v in env]
             if len(state) != 1:
                 _fail(s, "loop must update exactly one variable defined before it")
@@ -429,18 +616,38 @@ class Tr:
         """Types of the variables assigned by a fall-through `if` (every branch must agree)."""
         out = {}
 
+        def put(x, n, typ):
+            if out.setdefault(n, typ) != typ:
+                _fail(x, "variable assigned with different kinds")
+
         def walk(stmts, env_):
             env_ = dict(env_)
             for x in stmts:
                 if isinstance(x, ast.Assign) and len(x.targets) == 1:
                     t = x.targets[0]
+                    if isinstance(t, ast.Subscript):
+                        if isinstance(t.value, ast.Name) and env_.get(t.value.id) == "cache":
+                            put(x, "caches", "caches")
+                        continue
                     v = self.expr(x.value, env_)
-                    names = [n.id for n in t.elts] if isinstance(t, ast.Tuple) else [t.id] if isinstance(t, ast.Name) else []
-                    sub = {"pair": "val", "tblpair": "tbl"}.get(v.typ, v.typ) if isinstance(t, ast.Tuple) else v.typ
-                    for n in names:
+                    if isinstance(t, ast.Tuple):
+                        names = [n.id for n in t.elts]
+                        subs = {"pair": ("val", "val"), "tblpair": ("tbl", "tbl"), "arrs": ("arr2", "arr1")}.get(v.typ, (v.typ, v.typ))
+                    else:
+                        nm = self.self_attr(t) or (t.id if isinstance(t, ast.Name) else None)
+                        names, subs = ([nm], (v.typ,)) if nm else ([], ())
+                    for n, sub in zip(names, subs):
                         env_[n] = sub
-                        if out.setdefault(n, sub) != sub:
-                            _fail(x, "variable assigned with different kinds")
+                        put(x, n, sub)
+                    if self.log and isinstance(x.value, ast.Call) and isinstance(x.value.func, ast.Attribute) \
+                            and x.value.func.attr == "_get_degree_and_size":
+                        put(x, "log", "log")
+                elif self.log and self.is_warn(x):
+                    put(x, "log", "log")
+                elif self.is_super_init(x):
+                    env_["self_points"], env_["self_weights"] = "arr2", "arr1"
+                    put(x, "self_points", "arr2")
+                    put(x, "self_weights", "arr1")
                 elif isinstance(x, ast.If):
                     walk(x.body, env_)
                     walk(x.orelse, env_)
@@ -509,7 +716,7 @@ def _split_dispatch(tr, fn, env):
     d = stmts[0]
     if not isinstance(d, ast.If) or tr.terminates(d.body):
         _fail(d, "expected the method dispatch first")
-    vs = tr.assigned([d])
+    vs = tr.assigned([d], env)
     typs = tr.yield_types(d, env)
     tup = vs[0] if len(vs) == 1 else "(" + ", ".join(vs) + ")"
     def fin(env_):
@@ -599,12 +806,10 @@ def render(source: str, src_dir=None) -> str:
             if not ok:
                 _fail(ld, "np.load argument is not files(<package>).joinpath(<name>)")
             dataname = ld.targets[0].id
-            for s in rest[k + 1:]:
-                for n in ast.walk(s):
-                    if isinstance(n, ast.Name) and n.id not in (dataname, "np", "len"):
-                        _fail(s, "statement after np.load mentions something other than the loaded data")
-                    if isinstance(n, (ast.Assign, ast.AugAssign, ast.Raise, ast.For, ast.While)):
-                        _fail(s, "unsupported statement after np.load")
+            # the statements after np.load: translated as a function of the loaded arrays (generic in K)
+            trd = Tr(params)
+            tail = trd.block(rest[k + 1:], {dataname: "npz"}, lambda env_: _fail(fn, "control falls off the end"), 1)
+            loader_tail = (dataname, tail)
             pkg_e, file_e = arg.func.value.args[0], arg.args[0]
             body_stmts = rest[:k] + [ast.Return(value=ast.Tuple(elts=[pkg_e, file_e], ctx=ast.Load()))]
 
@@ -612,6 +817,11 @@ def render(source: str, src_dir=None) -> str:
             body_stmts = rest
         body = tr.block(body_stmts, {**env, **typs}, lambda env_: _fail(fn, "control falls off the end"), 1)
         order = params[name]
+        if name == "_get_degree_and_size":
+            # the same body, result = the warnings.warn calls that were executed
+            trw = Tr(params, log=True)
+            wbody = trw.block(rest, {**env, **typs, "log": "log"}, lambda env_: _fail(fn, "control falls off the end"), 1)
+            gds_warn = (vs, typs, tup, wbody)
         out.append(f"/-- `AngularGrid.{name}`: the method dispatch (first `if`/`elif` chain). -/")
         out.append(f"def {lname}_dispatch (method : String) : Py ({dtype}) :=\n{dterm}\n")
         out.append(f"/-- `AngularGrid.{name}`: everything after the dispatch. -/")
@@ -707,6 +917,61 @@ def render(source: str, src_dir=None) -> str:
     out.append(f"def initDefault : Py (Val × Val × String × Val × String × String) :=\n"
                f"  initSelect ({dflt['degree'].code}) ({dflt['size'].code}) {dflt['method'].code}\n")
 
+    # ---- round 3: the full text (warning logs, arrays generic in K, cache state) -------------------
+    KVARS = ("variable {K : Type} [Mul K] [Div K] [NatCast K] [Elem K] [LT K] [LE K] [DecidableLT K] [DecidableLE K]")
+    vs, typs, tup, wbody = gds_warn
+    vdecl = " ".join(f"({v} : {LEAN_TYPE[typs[v]]})" for v in vs)
+    gp = SIGS["_get_degree_and_size"][1]
+    go = params["_get_degree_and_size"]
+    out.append("/-- `AngularGrid._get_degree_and_size`, everything after the dispatch, with the `warnings.warn` calls that\n"
+               "were executed as the result (the returned pair is still computed: it may raise). -/")
+    out.append(f"def getDegreeAndSize_warnings_body {vdecl} {decl(go, gp)} : Py (List Warning) :=\n"
+               f"  let log : List Warning := []\n{wbody}\n")
+    out.append("/-- The warnings of one call of `AngularGrid._get_degree_and_size`. -/")
+    out.append(f"def getDegreeAndSize_warnings {decl(go, gp)} : Py (List Warning) :=\n"
+               f"  getDegreeAndSize_dispatch method >>= fun {tup} =>\n  getDegreeAndSize_warnings_body {' '.join(vs)} {' '.join(go)}\n")
+    # which translated callables contain no warnings.warn call at all
+    silent = {nm for nm in SIGS if not any(Tr.is_warn(n) for n in ast.walk(_method(cls, nm)) if isinstance(n, ast.Expr))}
+    out.append("section full\n" + KVARS + "\n")
+    dataname, tail = loader_tail
+    out.append("/-- `AngularGrid._load_precomputed_angular_grid`: the statements after `np.load`, as a function of the loaded arrays. -/")
+    out.append(f"def loadPrecomputedAngularGrid_data ({dataname} : Npz K) : Py (List (List K) × List K) :=\n{tail}\n")
+    lo = params["_load_precomputed_angular_grid"]
+    out.append("/-- `AngularGrid._load_precomputed_angular_grid` against an abstract `np.load(files(package).joinpath(name))`. -/")
+    out.append(f"def loadPrecomputedAngularGridFull (npLoad : String → String → Py (Npz K)) {decl(lo, SIGS['_load_precomputed_angular_grid'][1])} : Py (List (List K) × List K) :=\n"
+               f"  loadPrecomputedAngularGrid {' '.join(lo)} >>= fun (package_, name_) =>\n"
+               f"  npLoad package_ name_ >>= fun {dataname} =>\n  loadPrecomputedAngularGrid_data {dataname}\n")
+    # __init__, every statement
+    trf = Tr(params, log=True, full=True)
+    trf.silent = silent
+    cdef = defaults["cache"]
+    if not (isinstance(cdef, ast.Constant) and isinstance(cdef.value, bool)):
+        raise Untranslatable("AngularGrid.__init__: default of `cache` is not a boolean constant")
+    for n in ast.walk(fn):
+        if isinstance(n, ast.Name) and n.id in ("caches", "log", "npLoad", "l_", "c_") or isinstance(n, ast.Name) and n.id.startswith("self_"):
+            _fail(n, "name reserved by the translation")
+
+    def final_full(env_):
+        want = {"self__degree": "val", "self__method": "str", "self_points": "arr2", "self_weights": "arr1", "caches": "caches", "log": "log"}
+        for k_, t_ in want.items():
+            if env_.get(k_) != t_:
+                _fail(fn, f"__init__ ends without `{k_}` being set")
+        extra = sorted(k_ for k_ in env_ if k_.startswith("self_") and k_ not in want)
+        if extra:
+            _fail(fn, f"__init__ sets attributes that are not carried: {extra}")
+        return "pure (self__degree, self__method, self_points, self_weights, caches, log)"
+    envf = {"degree": "val", "size": "val", "cache": "bool", "method": "str", "caches": "caches", "log": "log"}
+    fbody = trf.block(stmts, envf, final_full, 1)
+    out.append("/-- `AngularGrid.__init__`, every statement: given the loader's file system `npLoad` and the content of the\n"
+               "module-level cache dictionaries, `(self._degree, self._method, points and weights handed to Grid.__init__,\n"
+               "cache dictionaries afterwards, warnings raised)`. -/")
+    out.append("def initFull (npLoad : String → String → Py (Npz K)) (caches : Caches K) (degree : Val) (size : Val) (cache : Bool) (method : String) :\n"
+               "    Py (Val × String × List (List K) × List K × Caches K × List Warning) :=\n"
+               "  let log : List Warning := []\n" + fbody + "\n")
+    out.append("end full\n")
+    out.append("/-- Default of `cache=` in `AngularGrid.__init__`. -/")
+    out.append(f"def initCacheDefault : Bool := {'true' if cdef.value else 'false'}\n")
+
     # ---- listing of the data packages named by the loader's dispatch ----------------------------
     if src_dir is not None:
         ld = _method(cls, "_load_precomputed_angular_grid")
@@ -726,9 +991,9 @@ def render(source: str, src_dir=None) -> str:
 
     head = HEADER.format(name="angular_logic", source="src/grid/angular.py (AngularGrid._get_degree_and_size, "
                          "convert_angular_sizes_to_degrees, _load_precomputed_angular_grid, __init__), listing of src/grid/data/*")
-    return (head + "import GridVerif.Model.AngularPy\nimport GridVerif.Gen.AngularTables\n\n"
+    return (head + "import GridVerif.Model.AngularPy\nimport GridVerif.Model.AngularNp\nimport GridVerif.Gen.AngularTables\n\n"
             "set_option linter.unusedVariables false\n\n"
-            "namespace GridVerif.Gen.AngularLogic\nopen GridVerif.AngularPy GridVerif.Gen.Angular\n\n"
+            "namespace GridVerif.Gen.AngularLogic\nopen GridVerif GridVerif.AngularPy GridVerif.Gen.Angular\n\n"
             + "\n".join(out) + "\nend GridVerif.Gen.AngularLogic\n")
 
 
